@@ -28,13 +28,13 @@ ASSUMPTIONS = [
 ]
 TIMEOUT = {"quick": 400, "thorough": 2400}
 REQUIRED = {"post:marginal_likelihood": 100, "post:loo_likelihood": 100, "post:loo_predictions": 100,
-            "loo_refits": 500, "selections": 16, "gradient_components_checked": 300, "integer_theta_cases": 20, "large_n_cases": 16}
+            "loo_refits": 500, "selections": 16, "gradient_components_checked": 300, "integer_theta_cases": 20, "large_n_cases": 16, "selections:user_bounds": 16}
 
 
 def jobs(tier, seed):
     n_jobs = 16 if tier == "quick" else 32
     return [{"name": f"score-{j}", "seed": seed, "j": j, "n_cases": 40 if tier == "quick" else 300,
-             "n_select": 2 if tier == "quick" else 10} for j in range(n_jobs)]
+             "n_select": 2 if tier == "quick" else 10, "n_user_bounds": 2 if tier == "quick" else 7} for j in range(n_jobs)]
 
 
 def loo_reference(Kfull, y, m):
@@ -289,6 +289,73 @@ def run_job(job, rec):
             s_sel, s_mid = float(score(hp)), float(score(0.5 * (lo + hi)))
             rec.check(s_sel >= s_mid - 1e-9 * max(abs(s_mid), 1.0), "selected-worse-than-centre",
                       lambda: f"selected hyper-parameters score {s_sel!r}, the centre of the bounds box scores {s_mid!r}", sctx)
+
+    # ------------------------------------------------ bounds given by the user for one component are the advertised bounds of its hyper-parameters
+    from inference.gp import ChangePoint
+
+    def plain(name):
+        return {"SE": SquaredExponential, "RQ": RationalQuadratic, "WN": WhiteNoise}[name]
+
+    layouts = [("single", ["SE"]), ("single", ["RQ"]), ("sum", ["SE", "WN"]), ("sum", ["RQ", "SE"]), ("sum", ["SE", "RQ", "WN"]), ("cp", ["SE", "RQ"]), ("cp", ["SE", "SE"])]
+    for s in range(job.get("n_user_bounds", 3)):
+        form, names = layouts[(s + job["j"]) % len(layouts)]
+        opt, cv = [("bfgs", False), ("bfgs", True), ("diffev", False)][(s + job["j"] // 2) % 3]
+        d = 1
+        n = int(rng.integers(6, 13))
+        x = np.sort(rng.uniform(-1, 1, size=(n, d)), axis=0) * 10.0 ** rng.uniform(-1, 1)
+        ysc = 10.0 ** rng.uniform(-1, 1)
+        y = ysc * (np.sin(2.5 * x.sum(axis=1) / np.abs(x).max()) + 0.2 * rng.normal(size=n))
+        err = np.full(n, 0.08 * ysc)
+        which = int(rng.integers(len(names)))
+
+        def assemble(user):
+            comps = [plain(nm)(hyperpar_bounds=user) if (k == which and user is not None) else plain(nm)() for k, nm in enumerate(names)]
+            if form == "single":
+                return comps[0]
+            if form == "sum":
+                out = comps[0]
+                for c_ in comps[1:]:
+                    out = out + c_
+                return out
+            return ChangePoint(kernels=comps)
+
+        uctx = {"user_bounds": True, "layout": form, "components": names, "bounded_component": which, "optimizer": opt, "cross_val": cv, "n": n}
+        rec.context = uctx
+        np.random.seed(int(rng.integers(2**31)))
+        g0 = guarded(GpRegressor, x, y, y_err=err, kernel=assemble(None), optimizer=opt, cross_val=cv)
+        if isinstance(g0, Raised):
+            rec.violation("raised", f"automatic hyper-parameter selection raised {g0!r}", uctx)
+            continue
+        nm_par = 1   # constant mean
+        sizes = [plain(nm)().n_params if nm == "WN" else None for nm in names]
+        probe = [plain(nm)() for nm in names]
+        for pk in probe:
+            pk.pass_spatial_data(x)
+        sizes = [pk.n_params for pk in probe]
+        a0 = nm_par + sum(sizes[:which])
+        auto = [tuple(float(v) for v in b) for b in g0.hp_bounds[a0:a0 + sizes[which]]]
+        # the user's box: a sub-box of the automatic one, placed away from where the unconstrained optimum went
+        user = []
+        for (lo_, hi_), sel in zip(auto, np.asarray(g0.hyperpars, float)[a0:a0 + sizes[which]]):
+            w_ = hi_ - lo_
+            if sel > lo_ + 0.5 * w_:
+                user.append((lo_ + 0.05 * w_, lo_ + 0.3 * w_))
+            else:
+                user.append((lo_ + 0.7 * w_, lo_ + 0.95 * w_))
+        np.random.seed(int(rng.integers(2**31)))
+        g1 = guarded(GpRegressor, x, y, y_err=err, kernel=assemble(user), optimizer=opt, cross_val=cv)
+        rec.count("selections:user_bounds")
+        rec.case(digest("userbounds", x, y, form, names, which, opt, cv), nontrivial=True)
+        if isinstance(g1, Raised):
+            rec.violation("raised", f"automatic selection with user bounds on component {which} raised {g1!r}", uctx)
+            continue
+        adv = [tuple(float(v) for v in b) for b in g1.hp_bounds[a0:a0 + sizes[which]]]
+        rec.check(all(abs(a_[0] - u_[0]) <= 1e-12 * (1 + abs(u_[0])) and abs(a_[1] - u_[1]) <= 1e-12 * (1 + abs(u_[1])) for a_, u_ in zip(adv, user)), "user-bounds-not-advertised",
+                  lambda: f"{form} of {names}: component {which} was built with hyperpar_bounds={user}; the regressor advertises {adv} for those hyper-parameters", uctx)
+        sel = np.asarray(g1.hyperpars, float)[a0:a0 + sizes[which]]
+        inside = all(u_[0] - 1e-9 * (u_[1] - u_[0]) <= v_ <= u_[1] + 1e-9 * (u_[1] - u_[0]) for v_, u_ in zip(sel, user))
+        rec.check(inside, "selected-outside-bounds",
+                  lambda: f"{form} of {names}: component {which} was built with hyperpar_bounds={user}; the selected values are {sel}", uctx)
 
     for mname, a in atts.items():
         rec.count("post:" + mname, a.calls)
